@@ -6,12 +6,13 @@ import QibProofs.Lemmas.TNetBridgeFinset
 import QibProofs.Lemmas.TNetTreeBuildOK
 import QibProofs.Lemmas.TNetTreePrep
 import QibProofs.Lemmas.TNetEinsumTotal
+import QibProofs.Lemmas.TNetTreeLeaf
 /-!
 C07 — Network contraction is independent of strategy and equals the defining sum: theorems about the EXECUTABLE model
 (`QibModel/TNet.lean`, driver `drv_tnet`). Statements only; proofs are in `QibProofs/Lemmas/TNetBridgeRel.lean`,
 `TNetEinsumSound.lean`, `TNetEinsumData.lean`, `TNetTreeCert.lean`, `TNetTreeStruct.lean`, `TNetTreeSound.lean`,
 `TNetTreeRoot.lean`, `TNetTreeData.lean`, `TNetEinsumCert.lean`, `TNetEinsumCertMain.lean`, `TNetBridgeDense.lean`, `TNetTreePerm.lean`, `TNetTreePermTree.lean`, `TNetBridgeFinset.lean`, `TNetTreeBuildScan.lean`, `TNetTreeBuildAssign.lean`,
-`TNetTreeBuildInv.lean`, `TNetTreeBuildNode.lean`, `TNetTreeBuildOK.lean`, `TNetTreePrepPerm.lean`, `TNetTreePrep.lean`, `TNetEinsumTotal.lean`.
+`TNetTreeBuildInv.lean`, `TNetTreeBuildNode.lean`, `TNetTreeBuildOK.lean`, `TNetTreePrepPerm.lean`, `TNetTreePrep.lean`, `TNetEinsumTotal.lean`, `TNetTreeLeaf.lean`.
 
 `RepOK net` is what Python dictionaries and the constructors guarantee (unique keys, `len(shape) == len(bids)`, sorted
 tensor ids of a bond); with it `isConsistent net = .ok true` is the declarative well-formedness `WF net`
@@ -278,6 +279,18 @@ theorem C07_tree_total {net : Net} {data : Data} (hrep : RepOK net) (hcd : isCon
     toFullTensor r am = fullTensor net (dataAcc data) :=
   contractTree_total hrep hcd hct hfull
 
+/-- **Tree contraction, every scaffold** (single leaf included): for ANY scaffold over all real tensors, whatever
+`contractTree` returns expands to the dense tensor of the defining sum. (On a one-tensor network whose tensor repeats a
+bond the implementation refuses; the statement is about returned values.) -/
+theorem C07_tree_total_any {net : Net} {data : Data} (hrep : RepOK net) (hcd : isConsistentData net data = .ok true)
+    (s : Scaffold) {r : DT Int} {am : List Nat} {t : Tree}
+    (hct : contractTree net data s = .ok (r, am, t)) (hfull : ScaffoldFull net s) :
+    toFullTensor r am = fullTensor net (dataAcc data) := by
+  cases s with
+  | leaf tid => exact contractTree_leaf_total hrep hcd hct hfull
+  | node sl sr => exact contractTree_total hrep hcd hct hfull
+  | bad => simp [contractTree, buildContractionTree, buildTree, bind, Except.bind] at hct
+
 /-- **Strategy independence** (no certificate hypothesis): single-shot contraction and tree contraction along any two
 scaffolds return (tensor, axes map) pairs that expand to the same dense tensor. -/
 theorem C07_strategy_independent {net : Net} {data : Data} (hrep : RepOK net)
@@ -344,6 +357,14 @@ example : (contractTree exNet exData (.node (.leaf 1) (.leaf 0))).toBool = true 
 /-- a non-trivial value: the entry at the logical index (1,1,0,1) -/
 example : full exNet (dataAcc exData) [1, 1, 0, 1] = -899 := by decide +kernel
 example : full exNet (dataAcc exData) [0, 1, 0, 1] = 0 := by decide +kernel
+
+/-- a one-tensor network (the logical axes are the transposed tensor axes): the single-leaf scaffold is accepted -/
+def oneNet : Net :=
+  ⟨[(-1, ⟨-1, [3, 2], [8, 7], none⟩), (4, ⟨4, [2, 3], [7, 8], some 0⟩)], [(7, ⟨7, [-1, 4]⟩), (8, ⟨8, [-1, 4]⟩)]⟩
+def oneData : Data := [(0, DT.ofFn [2, 3] (fun i => Int.ofNat (i.foldl (fun a x => 3 * a + x) 1)))]
+example : isConsistentData oneNet oneData = .ok true := by decide +kernel
+example : ScaffoldFull oneNet (.leaf 4) := ⟨by decide, by decide +kernel⟩
+example : (contractTree oneNet oneData (.leaf 4)).toBool = true := by decide +kernel
 
 /-! The hypothesis `RootInj` of `C07_tree_sound` cannot be dropped: on a one-tensor network whose tensor carries the
 same (open) bond on both axes, the single-leaf tree passes `leafOK` and `rootOK`, yet the expanded value differs from the
